@@ -15,7 +15,9 @@ UNWRAP_RE = r"@ core::result::unwrap_failed"      # Kani reports the panic of `j
 TOKIO_RE = r"tokio JoinHandle failed"
 
 
-def make(pid, macro, profile, idx, seed, faults=True):
+def make(pid, macro, profile, idx, seed, faults=True, fail=False):
+    """fail: (sync try thread kinds) the ok flag of every position is symbolic too - a branch that FAILS next to a thread that PANICS: every thread
+    of a step is joined (and its panic re-raised) before the step's failure check, so the panic still reaches the caller"""
     is_async, is_try, is_spawn = KINDS[macro]
     carrier = "res" if is_try else ["raw", "opt"][idx % 2]
     styles = {}
@@ -23,7 +25,7 @@ def make(pid, macro, profile, idx, seed, faults=True):
         for s in range(1, d):
             styles[(b, s)] = "amap" if is_async else ("then" if carrier == "raw" else ["and_then", "then"][(idx + b + s) % 2])
     captures = {(b, s) for b, d in enumerate(profile) for s in range(1, d) if (b + s + idx) % 2 == 0}
-    pp = PP(macro, profile, carrier=carrier, can_fail=False, styles=styles, gates=1 if is_async else None, captures=captures)
+    pp = PP(macro, profile, carrier=carrier, can_fail=bool(fail), styles=styles, gates=1 if is_async else None, captures=captures)
     pp.gate_steps = {0}
     seen = "k_fault_seen()" if is_async else "t_fault_seen()"
     injected = "k_faulted()" if is_async else "t_faulted()"
@@ -53,8 +55,10 @@ def make(pid, macro, profile, idx, seed, faults=True):
     else:
         L.append("let r = %s;" % text)
         L.append("vassert!(%s == 0, %s);" % (injected, msg("the macro completed although a thread panicked: the panic did not reach the caller")))
-        L.append("vassert!(r == %s, %s);" % (pp.expected_success(), msg("without a fault the macro completes with its value")))
+        L.append("vassert!(r == %s, %s);" % (pp.first_failure_spec() if fail else pp.expected_success(), msg("without a fault the macro completes with its value")))
         L.append("vassert!(t_spawned() == t_joined(), %s);" % msg("every thread joined on the fault-free path"))
+        if fail:
+            L.append("vcover!(!(%s), \"a branch fails on the fault-free path\");" % pp.all_ok())
     L.append("vcover!(true, \"fault-free path reaches the end\");")
     multi = any(len(active(profile, s)) > 1 for s in range(max(profile)))
     expect = None
@@ -62,7 +66,7 @@ def make(pid, macro, profile, idx, seed, faults=True):
         expect = [TOKIO_RE if is_async else UNWRAP_RE]
     desc = dict(macro=macro, profile=list(profile), carrier=carrier, fault_bits="one per spawned %s" % ("task" if is_async else "thread") if faults else "off",
                 expected_failed_checks=expect or [])
-    return Program(pid, text, "    " + "\n    ".join(l for l in L if l), desc=desc, group=macro + ("" if faults else "/no-fault"), role=dict(kind=macro), expect_fail=expect,
+    return Program(pid, text, "    " + "\n    ".join(l for l in L if l), desc=desc, group=macro + ("" if faults else "/no-fault") + ("/failing-branches" if fail else ""), role=dict(kind=macro), expect_fail=expect,
                    solo=True, unwind=64 if not is_async else 12, weight=3)
 
 
@@ -76,6 +80,13 @@ def programs(tier, seed):
             if macro in ("spawn", "try_spawn") and prof not in ((1, 1), (2, 2)):
                 continue
             ps.append(make("p%04d" % i, macro, prof, i, seed))
+    # a failing branch next to a panicking thread (ok flags symbolic as well)
+    for macro, prof in (("try_join_spawn", (1, 1)), ("try_join_spawn", (2, 1)), ("try_join_spawn", (1, 2)), ("try_join_spawn", (2, 2)), ("try_join_spawn", (1, 1, 1)), ("try_spawn", (1, 1)), ("try_spawn", (2, 2))):
+        i += 1
+        if tier == "quick" and prof in ((2, 1), (1, 2)) and (i + seed) % 2:
+            continue
+        assert KINDS[macro][1] and not KINDS[macro][0]
+        ps.append(make("p%04d" % i, macro, prof, i, seed, fail=True))
     # single-branch programs spawn nothing: faults enabled must change nothing (expected: success)
     for macro in ("join_spawn", "try_join_spawn"):
         i += 1
